@@ -24,6 +24,7 @@ type Clause struct {
 }
 
 type LoopSpec struct {
+	Steps      []*Clause // two-state predicates over one iteration: old(...) is the loop head, plain names the back edge
 	Unroll     int
 	Invariants []*Clause
 	Decreases  *Clause
@@ -93,6 +94,12 @@ type Axiom struct {
 	Body   *Clause
 }
 
+type GhostField struct {
+	Name   string
+	Sort   string
+	OfType string
+}
+
 type GhostVar struct {
 	Name string
 	Type string
@@ -106,13 +113,14 @@ type ContractSet struct {
 	Lemmas  []*Lemma
 	Axioms  []*Axiom
 	Ghosts  map[string]*GhostVar
+	GhostFields map[string]*GhostField
 	OpaquePats []string
 	Errors  []string
 }
 
 func NewContractSet() *ContractSet {
 	return &ContractSet{Funcs: map[string]*FuncContract{}, Ifaces: map[string]*FuncContract{}, Externs: map[string]*FuncContract{},
-		Specs: map[string]*SpecFn{}, Ghosts: map[string]*GhostVar{}}
+		Specs: map[string]*SpecFn{}, Ghosts: map[string]*GhostVar{}, GhostFields: map[string]*GhostField{}}
 }
 
 var implRe = regexp.MustCompile(`==>`)
@@ -336,6 +344,18 @@ func (cs *ContractSet) ParseFile(path, pkgPath string) error {
 			cs.Specs[sf.Name] = sf
 		case "ghost":
 			cur, curLemma = nil, nil
+			if strings.HasPrefix(it.rest, "field") {
+				// ghost field <name> <sort> [of <pkgpath.Type>]
+				f := strings.Fields(strings.TrimPrefix(it.rest, "field"))
+				if len(f) >= 2 {
+					gf := &GhostField{Name: f[0], Sort: f[1]}
+					if len(f) >= 4 && f[2] == "of" {
+						gf.OfType = f[3]
+					}
+					cs.GhostFields[f[0]] = gf
+				}
+				continue
+			}
 			f := strings.Fields(strings.TrimPrefix(it.rest, "var"))
 			if len(f) >= 2 {
 				cs.Ghosts[f[0]] = &GhostVar{Name: f[0], Type: strings.Join(f[1:], " ")}
@@ -446,6 +466,11 @@ func (cs *ContractSet) ParseFile(path, pkgPath string) error {
 			case "decreases":
 				cl := mkClause(item{it.n, "", strings.TrimSpace(tail)}, curProps)
 				ls.Decreases = cl
+			case "step":
+				cl := mkClause(item{it.n, "", strings.TrimSpace(tail)}, curProps)
+				if cl != nil {
+					ls.Steps = append(ls.Steps, cl)
+				}
 			case "modifies":
 				for _, part := range splitTop(tail) {
 					part = strings.TrimSpace(part)
